@@ -261,7 +261,7 @@ func runCrashChild(self, dir, hf string, killAt int64) (crashRun, error) {
 }
 
 func suiteCrash(c *Ctx) error {
-	c.Res.Rule = "short histories (3..6 mutations: add / batch add / delete, half of them with one RebuildIndexes) on a real directory; mode A: for every sampled index k of the write-type file-system calls (create/write/sync/rename/remove/...) the child process is SIGKILLed exactly before call k, the parent reopens and requires records+indexes to equal the state after `acked` or `acked+1` operations (raw key dump vs the Lean model's key set; interrupted rebuild: records intact, second rebuild restores consistency); mode B: strict in-memory FS, unsynced data dropped after every acknowledged operation; non-trivial = the kill lands inside a mutation (not before the first / after the last); distinct by (history,k)"
+	c.Res.Rule = "short histories (3..6 mutations: add / batch add / delete, half of them with one RebuildIndexes) on a real directory; mode A: for every sampled index k of the write-type file-system calls (create/write/sync/rename/remove/...) the child process is SIGKILLed exactly before call k, the parent reopens and requires records+indexes to equal the state after `acked` or `acked+1` operations (raw key dump vs the Lean model's key set; interrupted rebuild: records intact, second rebuild restores consistency); mode B: strict in-memory FS, unsynced data dropped after every acknowledged operation; mode C: a store of 1110 records with IDs that are prefixes of each other loses power before the k-th sync of RebuildIndexes (every k), is reopened and rebuilt again: records intact, all three indexes complete, every signature reachable by its topology hash; non-trivial = the kill lands inside a mutation (not before the first / after the last); distinct by (history,k)"
 	self, _ := os.Executable()
 	nh := 6
 	perHist := 60
@@ -488,6 +488,13 @@ func suiteCrash(c *Ctx) error {
 		}
 	}
 
+	// ---- mode C: a LARGE store (more than one rebuild chunk, IDs that are prefixes of each other:
+	// MAL-9 / MAL-90 / MAL-900) whose RebuildIndexes loses power before its k-th sync, for every k;
+	// after the reboot the rebuild is run again and must restore full consistency ----
+	if err := crashBigRebuild(c); err != nil {
+		return err
+	}
+
 	// ---- correspondence: the real key set equals the Lean model's key set for the accepted prefix ----
 	mouts, err := RunModel(c.Model, "store", modelLines)
 	if err != nil {
@@ -498,6 +505,150 @@ func suiteCrash(c *Ctx) error {
 			c.Res.ModelDiffs++
 			c.ViolateNoInput("C07", "C07/model-correspondence:keys-after-crash", fmt.Sprintf("history %d kill %d: raw keys differ from the model's for the accepted prefix", ck.hist, ck.k),
 				map[string]interface{}{"broken": "correspondence Sfw.Store key layout (theorems C07_*)", "impl_keys": ck.keys, "model_keys": mouts[ck.lines[1]]})
+		}
+	}
+	return nil
+}
+
+// ---- mode C helpers ----
+
+type powerCut struct {
+	mem    *vfs.MemFS
+	armed  atomic.Bool
+	budget atomic.Int32 // syncs that still succeed
+	seen   atomic.Int32
+	dead   atomic.Bool
+}
+
+func (p *powerCut) onSync() {
+	if !p.armed.Load() {
+		return
+	}
+	p.seen.Add(1)
+	if p.budget.Add(-1) < 0 && !p.dead.Swap(true) {
+		p.mem.SetIgnoreSyncs(true)
+	}
+}
+
+type cutFS struct {
+	vfs.FS
+	pc *powerCut
+}
+
+type cutFile struct {
+	vfs.File
+	pc *powerCut
+}
+
+func (f cutFile) Sync() error     { f.pc.onSync(); return f.File.Sync() }
+func (f cutFile) SyncData() error { f.pc.onSync(); return f.File.SyncData() }
+
+func (c cutFS) wrap(f vfs.File, err error) (vfs.File, error) {
+	if err != nil {
+		return nil, err
+	}
+	return cutFile{f, c.pc}, nil
+}
+func (c cutFS) Create(name string) (vfs.File, error) { return c.wrap(c.FS.Create(name)) }
+func (c cutFS) Open(name string, o ...vfs.OpenOption) (vfs.File, error) {
+	return c.wrap(c.FS.Open(name, o...))
+}
+func (c cutFS) OpenReadWrite(name string, o ...vfs.OpenOption) (vfs.File, error) {
+	return c.wrap(c.FS.OpenReadWrite(name, o...))
+}
+func (c cutFS) OpenDir(name string) (vfs.File, error) { return c.wrap(c.FS.OpenDir(name)) }
+func (c cutFS) ReuseForWrite(o, n string) (vfs.File, error) {
+	return c.wrap(c.FS.ReuseForWrite(o, n))
+}
+
+func crashBigRebuild(c *Ctx) error {
+	const n = 1110
+	mk := func(i int) *detection.Signature {
+		return &detection.Signature{ID: fmt.Sprintf("MAL-%d", i), Name: fmt.Sprintf("sample %d", i), Severity: "HIGH",
+			TopologyHash: fmt.Sprintf("TOPO-%d", i), FuzzyHash: fmt.Sprintf("FZ-%d", i%97), EntropyScore: 1.0 + float64(i%7)}
+	}
+	once := func(cutAfter int32) (int32, string, error) {
+		mem := vfs.NewStrictMem()
+		pc := &powerCut{mem: mem}
+		pebbledb.VerifSetFS(cutFS{mem, pc})
+		defer pebbledb.VerifSetFS(nil)
+		mem.MkdirAll("/bigdb", 0o755)
+		if d, err := mem.OpenDir("/"); err == nil {
+			d.Sync()
+			d.Close()
+		}
+		ps, err := pebbledb.NewPebbleScanner("/bigdb", pebbledb.DefaultPebbleScannerOptions())
+		if err != nil {
+			return 0, "", err
+		}
+		var sigs []*detection.Signature
+		for i := 0; i < n; i++ {
+			sigs = append(sigs, mk(i))
+		}
+		if err := ps.AddSignatures(sigs); err != nil {
+			return 0, "", err
+		}
+		pc.budget.Store(cutAfter)
+		pc.armed.Store(true)
+		_ = ps.RebuildIndexes()
+		pc.armed.Store(false)
+		syncs := pc.seen.Load()
+		ps.Close()
+		mem.ResetToSyncedState()
+		mem.SetIgnoreSyncs(false)
+		ps2, err := pebbledb.NewPebbleScanner("/bigdb", pebbledb.DefaultPebbleScannerOptions())
+		if err != nil {
+			return syncs, "store unopenable after the power cut: " + err.Error(), nil
+		}
+		defer ps2.Close()
+		if ids, _ := ps2.ListSignatureIDs(); len(ids) != n {
+			return syncs, fmt.Sprintf("%d records after the power cut, want %d (a rebuild must never touch records)", len(ids), n), nil
+		}
+		if err := ps2.RebuildIndexes(); err != nil {
+			return syncs, "second rebuild failed: " + err.Error(), nil
+		}
+		st, err := ps2.Stats()
+		if err != nil {
+			return syncs, "stats: " + err.Error(), nil
+		}
+		if st.TopoIndexCount != n || st.FuzzyIndexCount != n || st.EntropyIndexCount != n {
+			return syncs, fmt.Sprintf("after re-running the rebuild the indexes hold %d / %d / %d entries for %d records", st.TopoIndexCount, st.FuzzyIndexCount, st.EntropyIndexCount, n), nil
+		}
+		missing := 0
+		first := ""
+		for i := 0; i < n; i++ {
+			g, err := ps2.GetSignatureByTopology(fmt.Sprintf("TOPO-%d", i))
+			if err != nil || g == nil || g.ID != fmt.Sprintf("MAL-%d", i) {
+				missing++
+				if first == "" {
+					first = fmt.Sprintf("MAL-%d", i)
+				}
+			}
+		}
+		if missing > 0 {
+			return syncs, fmt.Sprintf("%d of %d signatures unreachable through the topology index after the second rebuild (first: %s)", missing, n, first), nil
+		}
+		return syncs, "", nil
+	}
+	total, bad, err := once(1 << 20)
+	if err != nil {
+		return err
+	}
+	if bad != "" {
+		c.Violate("C07", "C07/rebuild-does-not-repair", "uninterrupted rebuild of a large store: "+bad, map[string]interface{}{"records": n, "mode": "no power cut"})
+	}
+	c.Count("big_rebuild_syncs_" + fmt.Sprint(total))
+	for k := int32(0); k < total; k++ {
+		_, bad, err := once(k)
+		if err != nil {
+			return err
+		}
+		c.Res.Evaluations++
+		c.Res.Nontrivial++
+		c.Count("big_rebuild_power_cuts")
+		if bad != "" {
+			c.Violate("C07", "C07/rebuild-does-not-repair", fmt.Sprintf("large store (%d records, IDs MAL-0..MAL-%d), power lost before sync %d of %d of RebuildIndexes: %s", n, n-1, k+1, total, bad),
+				map[string]interface{}{"records": n, "ids": "MAL-<i> for i in 0..1109", "power_cut_before_sync": k + 1, "syncs_of_a_full_rebuild": total})
 		}
 	}
 	return nil
